@@ -30,7 +30,7 @@ def regen(ctx):
 
 SPEC = dict(
     level="proof",
-    harness=dict(pkg_dir="index", run="TestVerifC29$", files=["index/zz_verif_c29_test.go"], n_quick=110, n_thorough=2500),
+    harness=dict(pkg_dir="index", run="TestVerifC29$", files=["index/zz_verif_c29_test.go"], n_quick=110, n_thorough=1500),
     runner=dict(imports=["From Coq Require Import QArith.", "From ZV Require Import Lib.Base Model.Score Model.ScoreBM25."], case_type="c29bcase",
                 mismatch_fn="c29b_mismatches", shard=120),
     rule="1-3 in-memory shards (distinct repo ranks incl. 0 and 65535) x 1-6 documents (4 extensions/languages, words with "
@@ -82,7 +82,7 @@ def check(ctx, pre_broken=None):
     h1 = vf.go_harness(ctx, h["pkg_dir"], h["run"], h["files"], ctx.n(h["n_quick"], h["n_thorough"]), env=h.get("env"), timeout=to, out_name="out-index.jsonl")
     if h1["rc"] != 0:
         broken.append("harness %s failed (rc=%d): %s" % (h["run"], h1["rc"], h1["log"][-1500:]))
-    h2 = vf.go_harness(ctx, "search", "TestVerifC29Search$", ["search/zz_verif_c29_test.go"], ctx.n(60, 1200), timeout=to, out_name="out-search.jsonl")
+    h2 = vf.go_harness(ctx, "search", "TestVerifC29Search$", ["search/zz_verif_c29_test.go"], ctx.n(60, 800), timeout=to, out_name="out-search.jsonl")
     if h2["rc"] != 0:
         broken.append("harness TestVerifC29Search failed (rc=%d): %s" % (h2["rc"], h2["log"][-1500:]))
     recs = h1["records"] + h2["records"]
